@@ -44,7 +44,11 @@ SCRIPTS = {
     # handle allocation with a hole in the table: x and y live, x closed, z opened (reuses x's handle), x re-opened
     # while y and z are live -> every live connection must keep a distinct handle and its own data
     'handle_reuse': (4, [('adv', 1), ('adv', 2), ('adv', 3), ('connect', 'x', 0, 1), ('connect', 'y', 0, 2), ('disc', 'x', 'c'), ('connect', 'z', 0, 3), ('adv', 1), ('connect', 'x2', 0, 1), ('send', 'x2', 'c', 1), ('send', 'y', 'c', 2), ('send', 'z', 'c', 3), ('send', 'x2', 'p', 4), ('send', 'y', 'p', 5), ('send', 'z', 'p', 6), ('disc', 'y', 'c'), ('send', 'z', 'c', 7), ('send', 'x2', 'c', 8), ('disc', 'z', 'p'), ('disc', 'x2', 'c')]),
+    # two dual-mode devices connected over LE and BR/EDR at the same time: each PDU stays on its own connection
+    'dual_mode': (2, [('adv', 1), ('connect', 'x', 0, 1), ('connect_cl', 'y', 0, 1), ('send', 'x', 'c', 1), ('send', 'y', 'c', 2), ('send', 'y', 'p', 3), ('send', 'x', 'p', 4), ('disc', 'x', 'c'), ('send', 'y', 'c', 5), ('send', 'y', 'p', 6), ('disc', 'y', 'p')]),
+    'dual_mode_rev': (2, [('connect_cl', 'y', 0, 1), ('adv', 1), ('connect', 'x', 0, 1), ('send', 'y', 'p', 1), ('send', 'x', 'p', 2), ('send', 'x', 'c', 3), ('send', 'y', 'c', 4), ('disc', 'y', 'c'), ('send', 'x', 'c', 5), ('send', 'x', 'p', 6), ('disc', 'x', 'p')]),
 }
+DUAL_SCRIPTS = ('dual_mode', 'dual_mode_rev')
 CLASSIC_SCRIPTS = ['pair', 'pair_pdisc', 'reconnect', 'fan_out', 'fan_in', 'chain', 'handle_reuse']
 
 
@@ -75,6 +79,9 @@ def adv_address(w, cfg, dev):
     d = w.devices[dev]
     if cfg['transport'] == 'classic':
         return d.public_address
+    if cfg.get('set_addr') and cfg['ext'][dev] and cfg['adv_own'][dev] == 'random':
+        # an extended advertising set with a random address of its own (not the device's)
+        return Address('C%d:C%d:C%d:C%d:C%d:C%d' % ((dev,) * 6), Address.RANDOM_DEVICE_ADDRESS)
     return d.public_address if cfg['adv_own'][dev] == 'public' else d.random_address
 
 
@@ -96,7 +103,8 @@ def run_script(cfg, script_name, sched=None):
     def bad(check, sig, msg):
         viol.append((check, dict(sig, transport=cfg['transport']), msg))
 
-    with World(n, classic=classic, le=not classic, controller_attrs=attrs) as w:
+    dual = script_name in DUAL_SCRIPTS
+    with World(n, classic=classic or dual, le=not classic, controller_attrs=attrs) as w:
         w.link.controllers.reorder(cfg['order'])
         w.power_on()
         obs = Obs(w)
@@ -115,7 +123,7 @@ def run_script(cfg, script_name, sched=None):
             cands = [
                 c
                 for c in getattr(obs, 'conns', {}).get(peripheral, [])
-                if int(c.role) == 1 and all(c is not k['pconn'] for k in conns.values())
+                if int(c.role) == 1 and c.transport == cconn.transport and all(c is not k['pconn'] for k in conns.values())
             ]
             if str(cconn.peer_address) != str(target) and bytes(cconn.peer_address) != bytes(target):
                 bad('wrong_peer', {'script': script_name, 'what': 'connect_result'}, f'{script_name}: device {central} asked for {target} and was handed a connection to {cconn.peer_address}')
@@ -138,9 +146,9 @@ def run_script(cfg, script_name, sched=None):
                         f'{script_name}: ends disagree on addresses: central self={cconn.self_address} peer={cconn.peer_address}; peripheral self={pconn.self_address} peer={pconn.peer_address}',
                     )
 
-        async def do_connect(central, target):
+        async def do_connect(central, target, force_classic=False):
             d = w.devices[central]
-            if classic:
+            if classic or force_classic:
                 return await d.connect(target, transport=PhysicalTransport.BR_EDR)
             own = hci.OwnAddressType.PUBLIC if cfg['init_own'] == 'public' else hci.OwnAddressType.RANDOM
             return await d.connect(target, own_address_type=own)
@@ -152,6 +160,20 @@ def run_script(cfg, script_name, sched=None):
                     if classic:
                         continue
                     own = hci.OwnAddressType.PUBLIC if cfg['adv_own'][op[1]] == 'public' else hci.OwnAddressType.RANDOM
+                    if cfg.get('set_addr') and cfg['ext'][op[1]] and cfg['adv_own'][op[1]] == 'random':
+                        from bumble.device import AdvertisingParameters
+
+                        w.loop.run(
+                            w.devices[op[1]].create_advertising_set(
+                                random_address=adv_address(w, cfg, op[1]),
+                                advertising_parameters=AdvertisingParameters(
+                                    own_address_type=own, primary_advertising_interval_min=200.0, primary_advertising_interval_max=200.0
+                                ),
+                                advertising_data=bytes([2, 1, 6, 3, 0xFF, 0x40 + op[1], op[1]]),
+                            ),
+                            horizon=horizon(),
+                        )
+                        continue
                     w.loop.run(
                         w.devices[op[1]].start_advertising(
                             own_address_type=own,
@@ -161,12 +183,12 @@ def run_script(cfg, script_name, sched=None):
                         ),
                         horizon=horizon(),
                     )
-                elif kind in ('connect', 'connect_bg'):
+                elif kind in ('connect', 'connect_bg', 'connect_cl'):
                     _, name, central, peripheral = op
-                    target = adv_address(w, cfg, peripheral)
-                    t = w.loop.create_task(do_connect(central, target))
+                    target = adv_address(w, cfg, peripheral) if kind != 'connect_cl' else w.devices[peripheral].public_address
+                    t = w.loop.create_task(do_connect(central, target, kind == 'connect_cl'))
                     bg[name] = (t, central, peripheral, target)
-                    if kind == 'connect':
+                    if kind in ('connect', 'connect_cl'):
                         if not w.loop.run_until(t.done, horizon=horizon(), max_steps=100000):
                             bad('connect_hang', {'script': script_name, 'conn': name}, f'{script_name}: connect of device {central} to {target} never completed')
                             break
@@ -340,6 +362,9 @@ def configs(quick):
                 for ext in ((False,) * n, (True,) * n) + (((True,) + (False,) * (n - 1), (False,) + (True,) * (n - 1)) if not quick else ()):
                     for order in orders if ((not quick and n < 4) or n == 2) else (orders[0], orders[-1], orders[2]):
                         out.append(({'transport': 'le', 'init_own': init_own, 'adv_own': [adv_own] * n, 'ext': list(ext), 'order': list(order)}, script))
+                        if all(ext) and adv_own == 'random' and script not in DUAL_SCRIPTS and order == orders[0]:
+                            # extended advertising sets that advertise with a random address of their own
+                            out.append(({'transport': 'le', 'init_own': init_own, 'adv_own': [adv_own] * n, 'ext': list(ext), 'order': list(order), 'set_addr': True}, script))
     for script in CLASSIC_SCRIPTS:
         n = SCRIPTS[script][0]
         for order in list(itertools.permutations(range(n)))[:: (1 if n < 4 else 5)]:
@@ -417,7 +442,7 @@ def run(ctx: core.Context) -> int:
         ctx,
         LEVEL,
         rule=(
-            'scripts_d0: 10 scripts (connect/data/disconnect orders over 2-3 devices incl. a device that is central and peripheral at once '
+            'scripts_d0: 12 scripts (incl. two dual-mode LE+BR/EDR scripts and extended advertising sets with an address of their own) (connect/data/disconnect orders over 2-3 devices incl. a device that is central and peripheral at once '
             'with racing connects) x own-address type of initiator and advertisers x legacy/extended advertising x LE/BR-EDR x controller '
             'iteration orders, default schedule; scanning: passive/active scanner x advertisers x payload lengths; schedules: representative '
             'configurations under all order-preserving delays up to the deviation bound. distinct = distinct (configuration, script) or '
